@@ -64,6 +64,8 @@ THEOREMS_TREE = [
     "OllamaVerif.C17.completion_shape",
     "OllamaVerif.C17.one_final_from_runner_body",
     "OllamaVerif.C17.tokenize_failure_after_done",
+    "OllamaVerif.C17.progress_once_is_first_terminal",
+    "OllamaVerif.C17.progress_equiv",
     "OllamaVerif.C17.prestream_reply_same",
     "OllamaVerif.C17.prestream_reply_single",
     "OllamaVerif.C17.unload_before_scheduling",
@@ -156,6 +158,9 @@ REQUIRED_COUNTERS = [
     "completion_end_0", "completion_end_3", "completion_end_4", "completion_end_5", "completion_end_6", "completion_end_7",
     "completion_dones_1_ret_nil", "completion_dones_0_ret_nil", "completion_dones_0_ret_err",
     "completion_content_and_done_line_delivered_twice", "completion_token_repeat_abort",
+    # waitForStream: every kind of first terminal item, and none
+    "progress_first_terminal_success", "progress_first_terminal_error", "progress_first_terminal_other", "progress_no_terminal",
+    "progress_once_200", "progress_once_400", "progress_once_418", "progress_once_500",
     # generator classes
     "end_ok", "end_err", "end_silent", "done_chunk_has_content", "tools_early_parse", "tools_whole_parses", "long_groups",
     "conv_last_t", "conv_last_A", "conv_last_a", "conv_last_s", "conv_last_u", "texts_all_splits", "corpus_groups",
@@ -284,10 +289,16 @@ def run(ctx):
     if rc2 != 0:
         ctx.violation("driver-failed", "", "TestVerifC17Completion: " + out2[-1500:], no_input=True)
     ctx.read_stats(outdir2)
+    # waitForStream / streamResponse on scripted progress channels (pull / push / create replies)
+    rc3, out3, outdir3 = ctx.go_test("./server/", OVERLAY, "^TestVerifC17Progress$", env={"VERIF_N": ctx.scale(600, 6000)}, timeout=600)
+    if rc3 != 0:
+        ctx.violation("driver-failed", "", "TestVerifC17Progress: " + out3[-1500:], no_input=True)
+    ctx.read_stats(outdir3)
     coverage_required(ctx)
     ctx.l1(outdir)
     ctx.l1(outdir2, label="L1-completion")
-    ctx.classify(ctx.l2(outdir) + ctx.l2(outdir2))
+    ctx.l1(outdir3, label="L1-progress")
+    ctx.classify(ctx.l2(outdir) + ctx.l2(outdir2) + ctx.l2(outdir3))
     if ctx.thorough:
         ctx.leanchecker(MODULES)
     ctx.assumptions += [
